@@ -19,6 +19,7 @@ func init() {
 		ruleP5(c, "C13.P5")
 		ruleL2f(c, "C13.P6", func(e string) bool { return strings.Contains(e, "READDIR") }, 4)
 		ruleKind(c, "C13.P7")
+		ruleP8(c, "C13.P8")
 	}
 }
 
@@ -263,6 +264,11 @@ func ruleP3(c *Ctx, id string) {
 			}
 			for v := range bwdSources(ipv) {
 				judge(v, Subst{}, 0)
+				// an inode that was not acquired for this entry at all (the listed directory itself, a captured one)
+				switch v.(type) {
+				case *ssa.Parameter, *ssa.FreeVar, *ssa.Global:
+					okAcq = false
+				}
 			}
 			R.Check(okAcq && nsrc > 0, id, "dir.Apply|inode of the entry's number", P.Pos(in.Pos()), "the inode passed to the callback was acquired for de.inum of this entry", fmt.Sprintf("%d acquisition sources, all on de.inum", nsrc), "the attributes returned for a name are those of another object")
 		}
@@ -432,5 +438,57 @@ func ruleP5(c *Ctx, id string) {
 	}
 	if n == 0 {
 		R.Pass(id, "handlers|no upper bound on cookies", "?", "no handler compares the cookie with the directory size: every aligned cookie is accepted (a cookie beyond the end yields an empty page with eof)", "nothing to agree")
+	}
+}
+
+// ruleP8: a cookie stays valid while the client pages through a directory
+// that changes under it: the entry that ended the previous page may be gone by
+// the time the cookie comes back.  Whether a cookie is refused must therefore
+// depend on the cookie (and at most the directory's size) alone - never on
+// what the directory contains at that slot now.
+func ruleP8(c *Ctx, id string) {
+	V, P, R := c.V, c.P, c.R
+	R.Rule(id, "a cookie is refused on its own merits: the tests that lead to NFS3ERR_BAD_COOKIE do not read the directory's content (no Inode.Read / block read in what they compute)", 2)
+	bad := constOfPkg(P, "nfstypes", "NFS3ERR_BAD_COOKIE")
+	readsContent := func(f *ssa.Function) bool {
+		if f == nil || !IsRepoFunc(f) {
+			return false
+		}
+		r := P.Reach([]*ssa.Function{f}, func(x *ssa.Function) bool { return !IsRepoFunc(x) })
+		return r[V.InodeRead] || r[V.ReadBlock] || f == V.InodeRead || f == V.ReadBlock
+	}
+	n := 0
+	seen := map[string]int{}
+	forStatusConst(c, bad, func(fn *ssa.Function, at *ssa.BasicBlock, pos token.Pos) {
+		n++
+		k := FuncName(ownerOf(fn)) + "|BAD_COOKIE decided without reading the directory"
+		seen[k]++
+		if seen[k] > 1 {
+			k = fmt.Sprintf("%s#%d", k, seen[k])
+		}
+		R.Analysed[FuncName(fn)] = true
+		why := ""
+		for _, br := range branches(fn) {
+			// the tests this site hangs on: one side of the test dominates it, the other does not
+			onT := br.True == at || (len(br.True.Preds) == 1 && br.True.Dominates(at))
+			onF := br.False == at || (len(br.False.Preds) == 1 && br.False.Dominates(at))
+			if onT == onF {
+				continue
+			}
+			for _, v := range []ssa.Value{br.Cond.X, br.Cond.Y} {
+				if v == nil {
+					continue
+				}
+				for w := range bwdAll(v) {
+					if cl, ok := w.(*ssa.Call); ok && readsContent(cl.Call.StaticCallee()) {
+						why = FuncName(cl.Call.StaticCallee()) + " at " + P.Pos(cl.Pos())
+					}
+				}
+			}
+		}
+		R.Check(why == "", id, k, P.Pos(pos), "the tests that lead to the refusal look at the cookie (and the directory's size) only", "no content read in the deciding conditions", "the refusal depends on what the directory holds now ("+why+"): when the entry that ended the previous page is removed between two calls, the cookie the client legitimately holds is answered BAD_COOKIE and the rest of the directory is never listed")
+	})
+	if n == 0 {
+		R.Pass(id, "handlers|BAD_COOKIE never answered", "?", "no handler refuses cookies", "nothing to judge")
 	}
 }
